@@ -208,6 +208,34 @@ def run_case(case):
             r.worst("composite_sum_err/tol", d / 1e-9)
             if d > 1e-9 * (1 + float(lad.abs().max())):
                 r.viol("composite_sum", "composite logabsdet != sum of parts", err=d, cfg=cfg)
+    # the SAME object on another event shape (legal for the elementwise maps and for broadcastable affine maps): a value
+    # memoised on the first call must not leak into the second
+    agnostic = fam in ("exp", "tanh", "logtanh", "leakyrelu", "sigmoid", "cauchycdf", "identity") or \
+        (fam == "pointwise_affine" and (cfg.get("kind") == "scalar" or len(cfg["shape"]) == 1))
+    if agnostic:
+        try:
+            m2 = dict(me)
+            if fam == "pointwise_affine" and cfg.get("kind") != "scalar":
+                m2["shape"] = [2] + list(me["shape"])
+            else:
+                m2["shape"] = [2, 3] if len(me["shape"]) == 1 else [4]
+            x2 = zoo.sample_inputs(m2, 3, case["seed"] + 7, structured=False)
+            with torch.no_grad():
+                out2, lad2 = model(x2, None)
+            for i in range(x2.shape[0]):
+                J2, _, _ = jm.item_jacobian(lambda z, c: model(z, c), x2[i], None)
+                ref2 = jm.ref_logabsdet(J2)
+                if ref2 is None or not torch.isfinite(ref2):
+                    continue
+                r.ev()
+                r.count("second_shape_items")
+                e2 = abs(float(lad2[i]) - float(ref2))
+                if e2 > 1e-7 * (1 + abs(float(ref2))) * 10:
+                    r.viol("logdet_mismatch", "%s logabsdet != log|det J| on a second call with another event shape" % fam, item=i,
+                           returned=float(lad2[i]), reference=float(ref2), first_shape=me["shape"], second_shape=m2["shape"], cfg=cfg)
+                    break
+        except Exception as e:
+            r.count("second_shape_raised")
     r.sample({"family": fam, "policy": pol, "x0": x[0].reshape(-1)[:6], "logabsdet0": float(lad[0]),
               "worst_err_over_tol": worst})
     return r.done()
